@@ -69,4 +69,11 @@ L2Reset(s)   ==                                            \* for sq in window.i
 \* dasp_signal::rms adaptor: feed the source's next frame to the detector
 SigNext(s, src)        == LET r == L2Next(s, Head(src))        IN [s |-> r.s, out |-> r.out, src |-> Tail(src)]
 SigNextSquared(s, src) == LET r == L2NextSquared(s, Head(src)) IN [s |-> r.s, out |-> r.out, src |-> Tail(src)]
+
+---------------------------------------------------------------------------
+(* Clone (#[derive(Clone)] on Rms and on the adaptor): a field-by-field copy -- the ring buffer (data and   *)
+(* position of its first element) and the running sum.  At layer 1 the copy simply has seen the same frames. *)
+L1Clone(w) == w
+C1Clone(s) == [win |-> s.win, sum |-> s.sum]
+L2Clone(s) == [rb |-> [data |-> s.rb.data, first |-> s.rb.first], sum |-> s.sum]
 =============================================================================
